@@ -2,6 +2,7 @@ mod common;
 mod c01;
 mod c04;
 mod c05;
+mod c08;
 mod c11;
 mod c12;
 mod c15;
@@ -24,6 +25,7 @@ fn main() {
                 "C01" => c01::replay(cases, verd),
                 "C04" => c04::replay(cases, verd),
                 "C05" => c05::replay(cases, verd),
+                "C08" => c08::replay(cases, verd),
                 "C12" => c12::replay(cases, verd),
                 "C15" => c15::replay(cases, verd),
                 "C16" => c16::replay(cases, verd),
@@ -43,6 +45,7 @@ fn main() {
                 "C01" => c01::record(seed, n, out),
                 "C04" => c04::record(seed, n, out, args.get(6).and_then(|s| s.parse().ok()).unwrap_or(300)),
                 "C05" => c05::record(seed, n, out, args.get(6).and_then(|s| s.parse().ok()).unwrap_or(12)),
+                "C08" => c08::record(seed, n, out, args.get(6).and_then(|s| s.parse().ok()).unwrap_or(200)),
                 "C11" => c11::record(&args[6], seed, n, out),
                 "C12" => c12::record(seed, n, out, args.get(6).and_then(|s| s.parse().ok()).unwrap_or(16)),
                 "C15" => c15::record(seed, n, out),
